@@ -125,12 +125,44 @@ fn non_reference_cases(g: &Grammar, out: &mut Vec<Case9>) {
     }
 }
 
+/// the referrer with its identifier list naming the target several times (t, Q0, t, t)
+fn with_repeated_target(es: &ESpec, t: &str) -> Option<ESpec> {
+    fn fix(k: &mut KSpec, t: &str) -> bool {
+        let mut hit = false;
+        if let Some(l) = &mut k.list {
+            if l.iter().any(|x| x == t) {
+                *l = vec![t.to_string(), "Q0".to_string(), t.to_string(), t.to_string()];
+                hit = true;
+            }
+        }
+        for kk in k.kids.iter_mut() {
+            hit |= fix(kk, t);
+        }
+        hit
+    }
+    let mut e2 = es.clone();
+    let mut hit = false;
+    for k in e2.kids.iter_mut() {
+        hit |= fix(k, t);
+    }
+    hit.then_some(e2)
+}
+
 pub fn build(g: &Grammar, thorough: bool) -> Vec<Case9> {
     let mut out = Vec::new();
-    let sites = referrers("X");
-    for (label, ns, referrer) in &sites {
+    let mut sites = referrers("X");
+    let repeated: Vec<(&'static str, Ns, ESpec)> = sites.iter().filter_map(|(l, ns, r)| with_repeated_target(r, "X").map(|r2| (*l, *ns, r2))).collect();
+    let n_plain = sites.len();
+    sites.extend(repeated);
+    for (si, (label, ns, referrer)) in sites.iter().enumerate() {
+        let label = &if si >= n_plain { format!("{label} (target named several times)") } else { label.to_string() };
         for tk in kinds_of(*ns) {
-            for overlap in ["absent", "identical", "conflict", "conflict+merge-taken", "conflict+merge-name-in-B"] {
+            for overlap in ["absent", "identical", "conflict", "conflict+merge-taken", "conflict+merge-name-in-B", "conflict-other-kind"] {
+                // (A holds an element of another kind of the same namespace under the name X)
+                let other_kinds: Vec<&str> = kinds_of(*ns).into_iter().filter(|k| *k != tk).collect();
+                if overlap == "conflict-other-kind" && other_kinds.is_empty() {
+                    continue;
+                }
                 // twin: A holds a referrer with the same text as B's (same name, same content, same reference text); whether the two
                 // are the same element depends on what their references designate after the merge
                 for novelty in ["new", "conflicting", "twin"] {
@@ -142,6 +174,7 @@ pub fn build(g: &Grammar, thorough: bool) -> Vec<Case9> {
                     match overlap {
                         "identical" => a.push(e(tk, "X", "c1")),
                         "conflict" => a.push(e(tk, "X", "c2")),
+                        "conflict-other-kind" => a.push(e(other_kinds[0], "X", "c1")),
                         "conflict+merge-taken" => {
                             a.push(e(tk, "X", "c2"));
                             a.push(e(tk, "X.MERGE", "c1"));
